@@ -17,6 +17,14 @@ try:
     env = 'cd %s && PYTHONPATH=%s ' % (wt, wt)
     r = sh(env + '/venv/bin/python %s/demo.py' % src); res['demo_unchanged_rc'] = r.returncode
     r = sh('cd %s && git apply %s/patch.diff' % (wt, src)); res['applies'] = (r.returncode == 0)
+    if not res['applies']:
+        # the tree moved on (fix commits): retry with fuzz and refresh the stored patch
+        r = sh('cd %s && patch -p1 -F3 --no-backup-if-mismatch < %s/patch.diff' % (wt, src))
+        res['applies'] = (r.returncode == 0)
+        if res['applies']:
+            d = sh('cd %s && git diff -- wn' % wt).stdout
+            open(os.path.join(src, 'patch.diff'), 'w').write(d)
+            res['patch_refreshed'] = True
     if res['applies']:
         r = sh(env + '/venv/bin/python -m pytest -q -p no:cacheprovider -x tests bench 2>&1 | tail -3')
         res['suite_with_change'] = r.stdout.strip().splitlines()[-1] if r.stdout.strip() else r.stderr[-200:]
